@@ -213,6 +213,9 @@ class CloneUniverse(Universe):
             self.N(c["n"]).metadata_props[c["name"]] = "x"
         elif op == "GraphMetaPut":
             self.G(c["g"]).metadata_props[c["name"]] = "x"
+        elif op == "AttrUpdate2":
+            self.N(c["n"]).attributes.update({c["name"]: ir.AttrInt64(c["name"], 1),
+                                              c["k"]: ir.AttrInt64(c["k"], 2) if c["flag"] else 5})
         elif op == "AttrPut":
             self.N(c["n"]).attributes[c["name"]] = ir.AttrInt64(c["name"], 1)
         elif op == "AttrDel":
